@@ -51,7 +51,11 @@ def judge(case, ctx):
     want = O.objval(name, vec, kp, wts)
     sums = container(vec, kind)
     try:
-        got = objective.value_to_minimize(sums, are_sums_in_ascending_order=True) if flag else objective.value_to_minimize(sums)
+        if flag:
+            # the flag is passed by keyword or positionally (both are legal call forms)
+            got = objective.value_to_minimize(sums, are_sums_in_ascending_order=True) if case.get("flag_form", "kw") == "kw" else objective.value_to_minimize(sums, True)
+        else:
+            got = objective.value_to_minimize(sums) if case.get("flag_form", "kw") == "kw" else objective.value_to_minimize(sums, False)
     except Exception as e:
         if name == "wmaxmin" and flag and isinstance(e, ValueError):
             ctx.held(key=("w-refused", tuple(vec)), nontrivial=False, cls="weighted/refuses_flag")
@@ -111,8 +115,8 @@ def cases_for(vec, rng, kinds=("list", "tuple", "ndarray", "ndarray_f")):
         for kp in ks:
             kind = rng.choice(kinds)
             yield {"objective": name, "k": kp, "vec": list(vec), "kind": kind, "flag": False}
-            yield {"objective": name, "k": kp, "vec": srt, "kind": kind, "flag": True}      # fast path on truly sorted input
-            yield {"objective": name, "k": kp, "vec": srt[::-1], "kind": rng.choice(kinds), "flag": False}
+            yield {"objective": name, "k": kp, "vec": srt, "kind": kind, "flag": True, "flag_form": rng.choice(["kw", "pos"])}      # fast path on truly sorted input
+            yield {"objective": name, "k": kp, "vec": srt[::-1], "kind": rng.choice(kinds), "flag": False, "flag_form": rng.choice(["kw", "pos"])}
     wts = [rng.choice([1, 2, 3, 5, 10, 0.5]) for _ in vec]
     yield {"objective": "wmaxmin", "weights": wts, "vec": list(vec), "kind": rng.choice(kinds), "flag": False}
     yield {"objective": "wmaxmin", "weights": wts, "vec": srt, "kind": "list", "flag": True}
